@@ -86,6 +86,25 @@ def indirect_kind(ins):
     return ("unknown", None)
 
 
+def callback_param(prog, f, ins, depth=0):
+    """an indirect call through a function-pointer parameter of a unit-internal helper, every call site of which passes a field
+    of a struct cbor_callbacks table (loaded there): the client's callback, invoked one level down.  Returns True / False"""
+    v = strip_casts(getattr(ins, "callee_val", None))
+    if not (isinstance(v, Arg) and f.internal and depth < 3):
+        return False
+    sites = [(g, c) for g in prog.funcs.values() for c in g.calls(f.name)]
+    if not sites:
+        return False
+    for g, c in sites:
+        a = strip_casts(c.operands[v.i]) if v.i < len(c.operands) else None
+        if isinstance(a, Inst) and a.op == "load":
+            src = strip_casts(a.operands[0])
+            if isinstance(src, Inst) and src.op == "getelementptr" and "cbor_callbacks" in src.d.get("src_type", ""):
+                continue
+        return False
+    return True
+
+
 def table_targets(prog, f, ins):
     """targets of an indirect call whose callee is loaded from a CONSTANT global table of function pointers
     (`static const fn_t table[] = {...}; table[i](...)`): list of function names, or None"""
@@ -331,6 +350,8 @@ class Effects:
                     setroots(ins, rr_all)
                 return
             kind, which = indirect_kind(ins)
+            if kind == "unknown" and callback_param(self.prog, f, ins):
+                kind, which = "callback", -1
             if kind == "alloc":
                 if which == "_cbor_malloc":
                     S["allocates"] = True
